@@ -9,6 +9,7 @@ From WG Require Import BV.RefSel.
 From WG Require Import BV.Bits.
 From WG Require Import Par.Splice.
 From WG Require Import Flags.Props.
+From WG Require Import Algo.EssSpec.
 
 Extraction Language OCaml.
 
@@ -56,4 +57,19 @@ Extraction "model.ml"
   representable
   java_from_props
   version
+  wf_graph
+  dist_matrix
+  eccs_f
+  eccs_b
+  diameter_of
+  radius_from
+  radial_of
+  largest_scc_nodes
+  check_eccf
+  check_eccb
+  check_diam
+  check_dv
+  check_rad
+  check_rv
+  check_ess_dm
 .
